@@ -413,6 +413,51 @@ def run(ctx):
                "re-arming the flag (the failing-creator `?` exit): the next acquire_env serves the stale environment",
                where or acq.where(start))
 
+    # A10 (round 11, seed C20-11): the poll answers "no reload" only after it has looked at the flag.  Every path of
+    # `should_reload()` to a `false` verdict that is a constant passes a read of the flag field or lies on the side where the
+    # reloader is gone (`handle()` is None).  A cheaper hint in front of the lock ("nothing was signalled") has to be raised
+    # by every writer of the flag; the one on the error path of acquire_env was forgotten, and a failed rebuild lost the
+    # request it had just re-armed.
+    sf = prog.fn(SHOULD) if prog.has_fn(SHOULD) else None
+    if sf is not None:
+        fld = flag_field(ctx.prog)
+        reads = set()
+        for bb, i, st in sf.all_stmts():
+            rv = st.get("rv") or {}
+            pls = []
+            if rv.get("k") in ("use", "cast") and isinstance(rv.get("op"), dict):
+                q = op_place(rv["op"])
+                if q is not None:
+                    pls.append(q)
+            if isinstance(rv.get("place"), dict):
+                pls.append(rv["place"])
+            for q in pls:
+                if any(isinstance(e, dict) and e.get("n") == fld for e in q.get("p", [])):
+                    reads.add(bb)
+        for sb in sorted(sf.reachable):
+            t = sf.term(sb)
+            if t["k"] == "switch":
+                q = op_place(t["discr"])
+                if q is not None and any(isinstance(e, dict) and e.get("n") == fld for e in q.get("p", [])):
+                    reads.add(sb)
+        dead = set()
+        for sb in sorted(sf.reachable):
+            if sf.term(sb)["k"] != "switch":
+                continue
+            cd = flow.cond_of(sf, sb)
+            if cd.kind == "discr" and cd.place is not None and any(
+                    o.kind == "call" and o.call.name.endswith("Notifier::handle") for o in flow.origins(sf, {"cp": cd.place})):
+                for v, x in sf.term(sb)["arms"]:
+                    if v == "0":
+                        dead |= cfg.region_dominated_by(sf, x)
+                if not any(v == "0" for v, _ in sf.term(sb)["arms"]):
+                    dead |= cfg.region_dominated_by(sf, sf.term(sb)["otherwise"])
+        falses = [bb for bb, i, st in sf.all_stmts() if st["k"] == "assign" and st["place"] == {"l": 0} and st["rv"]["k"] == "use"
+                  and const_int(st["rv"]["op"]) == 0]
+        bad10 = [bb for bb in falses if bb not in dead and not cfg.paths_must_pass(sf, 0, reads, [bb])]
+        ctx.ob("C20.A10.no-reload-is-answered-only-after-the-flag-was-read", SHOULD, bool(reads) and not bad10,
+               "a path of the poll returns `false` without having read the flag (%d constant-false exits, %d of them unbacked): "
+               "a request that was recorded is not seen" % (len(falses), len(bad10)), sf.where(bad10[0] if bad10 else 0))
     # A8 (after seed C20-8): "alive" means the reloader still exists.  `Notifier::handle()` is the one place that decides
     # it: every value it returns is `Some(..)` of the strong handle or the result of `Weak::upgrade()` unchanged - no
     # other condition (a generation stamp, a flag) can make a notifier of a live reloader drop requests silently.
